@@ -5,6 +5,8 @@
 // outputs are diffed by tools/check.py.  See PROTOCOL.md.
 #include "abstract/utcp.hpp"
 extern "C" {
+#include "utcp/bit_buffer.h"
+#include "utcp/utcp_bunch.h"
 #include "utcp/utcp.h"
 #include "utcp/utcp_channel.h"
 #include "utcp/utcp_def_internal.h"
@@ -344,6 +346,123 @@ static void payload_from_seed(uint32_t pseed, size_t nbytes, uint8_t* out)
 		uint32_t x = (uint32_t)(pseed * 1103515245u + 12345u + (uint32_t)i * 2654435761u);
 		out[i] = (uint8_t)((x >> 16) & 0xFF);
 	}
+}
+
+extern "C" int64_t GetFreeSendBufferBits(struct utcp_connection* fd);
+
+// ---------------------------------------------------------------- structure-aware re-encoding of a handshake datagram
+struct HsFields
+{
+	unsigned session = 0, client = 0;
+	unsigned restart = 0, minver = 0, curver = 3, type = 0, count = 0;
+	uint32_t netver = 0;
+	unsigned sid = 0;
+	uint8_t ts[8] = {0};
+	uint8_t cookie[20] = {0};
+};
+
+static bool hs_decode(const Bytes& d, HsFields& f)
+{
+	struct utcp_config* cfg = utcp_get_config();
+	struct bitbuf rd;
+	if (d.empty() || !bitbuf_read_init(&rd, d.data(), d.size()))
+		return false;
+	uint32_t magic = 0;
+	if (cfg->MagicHeaderBits && !bitbuf_read_bits(&rd, &magic, cfg->MagicHeaderBits))
+		return false;
+	uint8_t v = 0, hs = 0;
+	if (!bitbuf_read_bits(&rd, &v, 2))
+		return false;
+	f.session = v;
+	v = 0;
+	if (!bitbuf_read_bits(&rd, &v, 3))
+		return false;
+	f.client = v;
+	if (!bitbuf_read_bit(&rd, &hs) || !hs)
+		return false;
+	uint8_t b = 0;
+	if (!bitbuf_read_bit(&rd, &b))
+		return false;
+	f.restart = b;
+	uint8_t x[4];
+	if (!bitbuf_read_bytes(&rd, x, 4))
+		return false;
+	f.minver = x[0];
+	f.curver = x[1];
+	f.type = x[2];
+	f.count = x[3];
+	if (f.curver >= 2 && !bitbuf_read_bytes(&rd, &f.netver, 4))
+		return false;
+	if (!bitbuf_read_bit(&rd, &b))
+		return false;
+	f.sid = b;
+	if (!bitbuf_read_bytes(&rd, f.ts, 8) || !bitbuf_read_bytes(&rd, f.cookie, 20))
+		return false;
+	return true;
+}
+
+static Bytes hs_encode(const HsFields& f, const uint8_t* extra, unsigned padbytes)
+{
+	struct utcp_config* cfg = utcp_get_config();
+	uint8_t buf[512];
+	struct bitbuf wr;
+	bitbuf_write_init(&wr, buf, sizeof(buf));
+	if (cfg->MagicHeaderBits)
+		bitbuf_write_bits(&wr, &cfg->MagicHeader, cfg->MagicHeaderBits);
+	if (f.curver >= 3)
+	{
+		uint8_t s = (uint8_t)f.session, c = (uint8_t)f.client;
+		bitbuf_write_bits(&wr, &s, 2);
+		bitbuf_write_bits(&wr, &c, 3);
+	}
+	bitbuf_write_bit(&wr, 1);
+	bitbuf_write_bit(&wr, (uint8_t)f.restart);
+	if (f.curver >= 1)
+	{
+		uint8_t x[4] = {(uint8_t)f.minver, (uint8_t)f.curver, (uint8_t)f.type, (uint8_t)f.count};
+		bitbuf_write_bytes(&wr, x, 4);
+	}
+	if (f.curver >= 2)
+		bitbuf_write_bytes(&wr, &f.netver, 4);
+	bitbuf_write_bit(&wr, (uint8_t)f.sid);
+	bitbuf_write_bytes(&wr, f.ts, 8);
+	bitbuf_write_bytes(&wr, f.cookie, 20);
+	if (extra)
+		bitbuf_write_bytes(&wr, extra, 20);
+	for (unsigned i = 0; i < padbytes; ++i)
+	{
+		uint8_t z = 0;
+		bitbuf_write_bytes(&wr, &z, 1);
+	}
+	bitbuf_write_bit(&wr, 1);
+	return Bytes(buf, buf + bitbuf_num_bytes(&wr));
+}
+
+// craft args: restart type curver count sid cookieflip extra pad   (-1 = keep)
+static bool craft(const Bytes& src, std::istringstream& is, Bytes& out)
+{
+	long restart, type, curver, count, sid, cookieflip, extra, pad;
+	is >> restart >> type >> curver >> count >> sid >> cookieflip >> extra >> pad;
+	HsFields f;
+	if (!hs_decode(src, f))
+		return false;
+	if (restart >= 0)
+		f.restart = (unsigned)restart & 1;
+	if (type >= 0)
+		f.type = (unsigned)type & 255;
+	if (curver >= 0)
+		f.curver = (unsigned)curver & 255;
+	if (count >= 0)
+		f.count = (unsigned)count & 255;
+	if (sid >= 0)
+		f.sid = (unsigned)sid & 1;
+	if (cookieflip >= 0)
+		f.cookie[cookieflip % 20] ^= 0x01;
+	uint8_t ex[20];
+	for (int i = 0; i < 20; ++i)
+		ex[i] = (uint8_t)(extra + i);
+	out = hs_encode(f, extra >= 0 ? ex : NULL, pad >= 0 ? (unsigned)(pad % 32) : 16);
+	return true;
 }
 
 // mutation of a datagram copy
@@ -774,6 +893,13 @@ int main(int argc, char** argv)
 				}
 			}
 		}
+		else if (op == "skip") // forget everything src has emitted so far (cursor to the end)
+		{
+			int src;
+			is >> src;
+			if (Endpoint* s = get_ep(src))
+				s->cur = s->outbox.size();
+		}
 		else if (op == "drop")
 		{
 			int src;
@@ -832,18 +958,24 @@ int main(int argc, char** argv)
 			if (l && hex2bytes(hex, d))
 				deliver_lsn(l, addr, d);
 		}
-		else if (op == "route") // sample's routing: route <lid> <addr> <src>  (next datagram of src)
+		else if (op == "route" || op == "routeat") // sample's routing: route <lid> <addr> <src> (next datagram of src) | routeat <lid> <addr> <src> <j> (relative, cursor untouched)
 		{
 			int lid, src;
+			long j = 0;
 			std::string addr;
 			is >> lid >> addr >> src;
+			if (op == "routeat")
+				is >> j;
 			HListener* l = get_lsn(lid);
 			Endpoint* s = get_ep(src);
-			if (!l || !s || s->cur >= s->outbox.size())
+			long idx = (l && s) ? (op == "route" ? (s->cur < s->outbox.size() ? (long)s->cur : -1) : pick(s, j)) : -1;
+			if (idx < 0)
 				emit("ret none");
 			else
 			{
-				Bytes d = s->outbox[s->cur++];
+				Bytes d = s->outbox[idx];
+				if (op == "route")
+					s->cur++;
 				auto it = g_routes.find(std::make_pair(lid, addr));
 				HConn* c = it != g_routes.end() ? get_conn(it->second) : nullptr;
 				if (c)
@@ -881,6 +1013,162 @@ int main(int argc, char** argv)
 					else
 						++it;
 			}
+		}
+		else if (op == "craft" || op == "lcraft")
+		{
+			// craft <dst> <src> <j> <fields…>   |   lcraft <lid> <addr> <src> <j> <fields…>
+			int dst, src;
+			long j;
+			std::string addr;
+			is >> dst;
+			if (op == "lcraft")
+				is >> addr;
+			is >> src >> j;
+			Endpoint* s = get_ep(src);
+			long idx = s ? pick(s, j) : -1;
+			Bytes d;
+			if (idx < 0 || !craft(s->outbox[idx], is, d))
+				emit("ret none");
+			else if (op == "lcraft")
+			{
+				if (HListener* l = get_lsn(dst))
+					deliver_lsn(l, addr, d);
+			}
+			else if (HConn* c = get_conn(dst))
+				deliver_conn(c, d, false);
+		}
+		else if (op == "sendfill") // sendfill <id> <ch> <flags> <name> <slack> <pseed>: payload sized to leave exactly <slack> free bits
+		{
+			int id;
+			unsigned ch, flags, name, slack, pseed;
+			is >> id >> ch >> flags >> name >> slack >> pseed;
+			if (HConn* c = get_conn(id))
+			{
+				std::unique_ptr<struct utcp_bunch> bp(new struct utcp_bunch);
+				struct utcp_bunch& b = *bp;
+				memset(&b, 0, sizeof(b));
+				b.ChIndex = (uint16_t)ch;
+				b.bOpen = flags & 1 ? 1 : 0;
+				b.bReliable = flags & 8 ? 1 : 0;
+				b.NameIndex = name;
+				uint8_t tmp[UTCP_MAX_PACKET];
+				struct bitbuf hb;
+				bitbuf_write_init(&hb, tmp, sizeof(tmp));
+				utcp_bunch_write_header(&b, &hb);
+				long bits = 100;
+				if (c->get_fd()->SendBufferBitsNum > 0)
+				{
+					bits = (long)GetFreeSendBufferBits(c->get_fd()) - (long)hb.num - (long)slack;
+					if (bits < 0)
+						bits = 0;
+				}
+				b.DataBitsLen = (uint16_t)bits;
+				size_t nb = ((size_t)bits + 7) / 8;
+				if (nb > sizeof(b.Data))
+					nb = sizeof(b.Data);
+				payload_from_seed(pseed, nb, b.Data);
+				int32_t r = utcp_send_bunch(c->get_fd(), &b);
+				emit("ret %d %ld", (int)r, bits);
+			}
+		}
+		else if (op == "codec") // codec <ch> <flags> <reason> <name> <chseq> <bits> <pseed> <offset>: serialize at a bit offset, parse back
+		{
+			unsigned ch, flags, reason, name, bits, pseed, offset;
+			long chseq;
+			is >> ch >> flags >> reason >> name >> chseq >> bits >> pseed >> offset;
+			std::unique_ptr<struct utcp_bunch> bp(new struct utcp_bunch), op2(new struct utcp_bunch);
+			struct utcp_bunch& b = *bp;
+			memset(&b, 0, sizeof(b));
+			b.ChIndex = (uint16_t)ch;
+			b.bOpen = flags & 1 ? 1 : 0;
+			b.bClose = flags & 2 ? 1 : 0;
+			b.bIsReplicationPaused = flags & 4 ? 1 : 0;
+			b.bReliable = flags & 8 ? 1 : 0;
+			b.bHasPackageMapExports = flags & 16 ? 1 : 0;
+			b.bHasMustBeMappedGUIDs = flags & 32 ? 1 : 0;
+			b.bPartial = flags & 64 ? 1 : 0;
+			b.bPartialInitial = flags & 128 ? 1 : 0;
+			b.bPartialFinal = flags & 256 ? 1 : 0;
+			b.CloseReason = reason & 15;
+			b.NameIndex = name;
+			b.ChSequence = (int32_t)chseq;
+			bits %= 7266;
+			b.DataBitsLen = (uint16_t)bits;
+			size_t nb = ((size_t)bits + 7) / 8;
+			payload_from_seed(pseed, nb, b.Data);
+			offset %= 64;
+			size_t cap = 1100;
+			uint8_t* buf = (uint8_t*)malloc(cap); // exact heap block: over-writes are ASan reports
+			struct bitbuf wr;
+			bitbuf_write_init(&wr, buf, cap);
+			for (unsigned i = 0; i < offset; ++i)
+				bitbuf_write_bit(&wr, (uint8_t)((pseed >> (i % 31)) & 1));
+			if (!utcp_bunch_write_header(&b, &wr) || !bitbuf_write_bits(&wr, b.Data, bits))
+				emit("codec encfail");
+			else
+			{
+				size_t endpos = wr.num;
+				uint16_t sentinel = 0xA5C3;
+				bitbuf_write_bits(&wr, &sentinel, 16);
+				struct bitbuf rd;
+				rd.buffer = buf;
+				rd.size = wr.num;
+				rd.num = offset;
+				struct utcp_bunch& o = *op2;
+				uint16_t got = 0;
+				if (!utcp_bunch_read(&o, &rd))
+					emit("codec decfail");
+				else if (rd.num != endpos || !bitbuf_read_bits(&rd, &got, 16) || got != sentinel)
+					emit("codec mismatch position %zu %zu", rd.num, endpos);
+				else
+				{
+					if (bits % 8 && nb)
+						b.Data[nb - 1] &= (uint8_t)((1u << (bits % 8)) - 1);
+					bool same = o.bOpen == b.bOpen && o.bClose == b.bClose && o.CloseReason == (b.bClose ? b.CloseReason : 0) && o.bIsReplicationPaused == b.bIsReplicationPaused &&
+								o.bReliable == b.bReliable && o.ChIndex == b.ChIndex && o.bHasPackageMapExports == b.bHasPackageMapExports &&
+								o.bHasMustBeMappedGUIDs == b.bHasMustBeMappedGUIDs && o.bPartial == b.bPartial && o.bPartialInitial == (b.bPartial ? b.bPartialInitial : 0) &&
+								o.bPartialFinal == (b.bPartial ? b.bPartialFinal : 0) && o.NameIndex == ((b.bReliable || b.bOpen) ? b.NameIndex : 0) &&
+								o.ChSequence == (b.bReliable ? (int32_t)(((uint32_t)b.ChSequence) & 1023) : 0) && o.DataBitsLen == b.DataBitsLen && memcmp(o.Data, b.Data, nb) == 0;
+					if (same)
+						emit("codec ok %zu", endpos - offset);
+					else
+						emit("codec mismatch fields");
+				}
+			}
+			free(buf);
+		}
+		else if (op == "bbint" || op == "bbwrapped" || op == "bbpacked") // bbint <v> <max> <offset> | bbwrapped <v> <max> <offset> | bbpacked <v> <offset>
+		{
+			unsigned long v, mx = 0, offset;
+			is >> v;
+			if (op != "bbpacked")
+				is >> mx;
+			is >> offset;
+			offset %= 64;
+			size_t cap = 16;
+			uint8_t* buf = (uint8_t*)malloc(cap);
+			struct bitbuf wr;
+			bitbuf_write_init(&wr, buf, cap);
+			for (unsigned i = 0; i < offset; ++i)
+				bitbuf_write_bit(&wr, (uint8_t)((v >> (i % 31)) & 1));
+			bool okw = op == "bbint" ? bitbuf_write_int(&wr, (uint32_t)v, (uint32_t)mx) : op == "bbwrapped" ? bitbuf_write_int_wrapped(&wr, (uint32_t)v, (uint32_t)mx) : bitbuf_write_int_packed(&wr, (uint32_t)v);
+			if (!okw)
+				emit("bb fail");
+			else
+			{
+				size_t used = wr.num - offset;
+				struct bitbuf rd;
+				rd.buffer = buf;
+				rd.size = wr.num;
+				rd.num = offset;
+				uint32_t got = 0;
+				bool okr = op == "bbpacked" ? bitbuf_read_int_packed(&rd, &got) : bitbuf_read_int(&rd, &got, (uint32_t)mx);
+				if (!okr)
+					emit("bb readfail %zu", used);
+				else
+					emit("bb ok %zu %u %zu", used, (unsigned)got, rd.num - offset);
+			}
+			free(buf);
 		}
 		else if (op == "nodes") // number of live bunch-node blocks (C16 quiescence)
 		{
